@@ -82,6 +82,7 @@ type Exec struct {
 	stack           []*ssa.Function
 	curCallPos      string
 	alloc           int64
+	fmtLen          int // length model of the formatted string being built (see opaqueErr)
 	maxSteps        int
 	curPos          string
 	overrides       map[string]*FuncV
